@@ -89,7 +89,8 @@ func (r *Rtmp2RtspRemuxer) FeedRtmpMsg(msg base.RtmpMsg) {
 		}
 		return
 	case base.RtmpTypeIdAudio:
-		if len(msg.Payload) <= 2 {
+		// aac的头部是2字节，g711、opus的头部是1字节，1字节的音频数据（比如opus的dtx帧）是合法的
+		if len(msg.Payload) < 2 || (len(msg.Payload) == 2 && msg.AudioCodecId() == base.RtmpSoundFormatAac) {
 			Log.Warnf("rtmp msg too short, ignore. header=%+v, payload=%s", msg.Header, hex.Dump(msg.Payload))
 			return
 		}
